@@ -17,7 +17,7 @@ from common import Case
 FAMILY = "tdigest"
 CORR = "TDigest"
 FAMNUM = 8
-ORACLES = {"prop_ok": 0, "tie_ok": 1, "c15_ok": 2, "codec_ok": 3, "twin_ok": 4, "foreign_ok": 5, "nopanic_ok": 6}
+ORACLES = {"prop_ok": 0, "tie_ok": 1, "c15_ok": 2, "codec_ok": 3, "twin_ok": 4, "foreign_ok": 5, "no_panic": 6}
 GEN_MODULES = [("GenTDigest", ["tdigest/serialization.rs", "tdigest/sketch.rs"],
                 ["PREAMBLE_LONGS_EMPTY_OR_SINGLE", "PREAMBLE_LONGS_MULTIPLE", "SERIAL_VERSION", "FLAGS_IS_EMPTY",
                  "FLAGS_IS_SINGLE_VALUE", "FLAGS_REVERSE_MERGE", "COMPAT_DOUBLE", "COMPAT_FLOAT", "BUFFER_MULTIPLIER",
